@@ -365,7 +365,8 @@ func cmdCheck(args []string) {
 	violations := 0
 	var inconclusive []string
 	knownHit := map[string]int{}
-	replayDir := filepath.Join(verifDir, "replays")
+	outDir := envOr("VX_OUT_DIR", verifDir)
+	replayDir := filepath.Join(outDir, "replays")
 	os.MkdirAll(replayDir, 0755)
 	var bin, tmp string
 	var binErr error
@@ -545,9 +546,9 @@ func cmdCheck(args []string) {
 		"Go SSA semantics as implemented by the vx executor (fork of x/tools go/ssa/interp v0.29.0 with symbolic scalars)",
 		"environment stubs listed under coverage.stubs",
 	}, ps.Assumptions...)
-	os.MkdirAll(filepath.Join(verifDir, "evidence"), 0755)
+	os.MkdirAll(filepath.Join(outDir, "evidence"), 0755)
 	b, _ := json.MarshalIndent(ev, "", " ")
-	os.WriteFile(filepath.Join(verifDir, "evidence", prop+".json"), b, 0644)
+	os.WriteFile(filepath.Join(outDir, "evidence", prop+".json"), b, 0644)
 
 	ids := keysInt(knownHit)
 	for _, id := range ids {
